@@ -1,4 +1,5 @@
 import WfModel.EventLog
+import WfModel.EventLogWriters
 import Driver.Util
 open EventLog Drv
 /-!
@@ -20,6 +21,11 @@ actions (`step`) and spec functions only.
   apiopen|hid|sse|q|qint|hdr|incl              -> http <code> | api=<id>
   apinext|id                                   -> frame <id or ->:<tag> | pending | end | busy | no-sub
   apicancel|id
+  wbegin|w|tag|type|types                      writer w (a connection on the shared SQLite file) starts append_event -> ok | busy-writer
+  wstmt|w                                      writer w executes its next SQL statement -> insert seq=<n> | busy | commit log=<seqs> | other <WORD> | idle
+  wend|w                                       append_event returned / raised -> done | aborted
+  wraw|w|write / wraw|w|commit                 a statement of another writing operation (handler row, tick): only the write lock matters
+                                               -> write | busy | commit log=<seqs>
 
 `poll` is the polling default `AbstractWorkflowStore.subscribe_events` run over a
 SQLite store: the SQLite machine in which appends never notify.
@@ -46,6 +52,8 @@ structure DSt where
   subs : List (String × Nat) := []
   handlers : List (String × Option String × String) := []
   apis : List ApiSub := []
+  /-- the statement-granular writers of one run on the shared SQLite file -/
+  w : WSt := WSt.init
 
 def getRun (d : DSt) (r : String) : St :=
   match d.runs.find? (·.1 == r) with
@@ -128,6 +136,26 @@ def handlerInfo (d : DSt) (hid : String) : HandlerInfo × Option String :=
   | none => (.notFound, none)
   | some (_, none, _) => (.noRun, none)
   | some (_, some r, status) => (.run (statusTerminal status), some r)
+
+def showSeqs (l : List Ev) : String := ",".intercalate (l.map fun e => toString e.seq)
+
+/-- what writer `w`'s statement did, from the states before and after it -/
+def describeStmt (s s' : WSt) (w : Nat) : String :=
+  match (s.writers w).todo with
+  | [] => "idle"
+  | st :: _ =>
+    let waited := (s'.writers w).todo.length == (s.writers w).todo.length
+    match st with
+    | .insertMax | .insertRead =>
+      if waited then "busy"
+      else if s'.dirty.length == s.dirty.length then "other INSERT"
+      else match s'.dirty.getLast? with
+        | some e => s!"insert seq={e.seq}"
+        | none => "other INSERT"
+    | .selectMax => "other SELECT"
+    | .write => if waited then "busy" else "write"
+    | .commit => "commit log=" ++ showSeqs s'.rows
+    | .other => "other"
 
 def stepBase (d : DSt) (line : String) : DSt × String :=
   match line.splitOn "|" with
@@ -271,6 +299,35 @@ def stepBase (d : DSt) (line : String) : DSt × String :=
         | some a => ({ d with apis := d.apis.set j { a with closed := true, pending := false } }, "ok")
         | none => (d, "no-sub")
       | none => (d, "bad-op")
+    | "wbegin", [w, tag, ty, tys] =>
+      match parseNat? w, parseNat? tag with
+      | some w, some t =>
+        if (d.w.writers w).todo.isEmpty then
+          ({ d with w := wstep d.w (.start w appendProgram t ty (parseTypes tys)) }, "ok")
+        else (d, "busy-writer")
+      | _, _ => (d, "bad-op")
+    | "wstmt", [w] =>
+      match parseNat? w with
+      | some w =>
+        let s' := wstep d.w (.exec w)
+        ({ d with w := s' }, describeStmt d.w s' w)
+      | none => (d, "bad-op")
+    | "wend", [w] =>
+      match parseNat? w with
+      | some w =>
+        if (d.w.writers w).todo.isEmpty then (d, "done")
+        else ({ d with w := wstep d.w (.abort w) }, "aborted")
+      | none => (d, "bad-op")
+    | "wraw", [w, what] =>
+      match parseNat? w, (if what == "write" then some Stmt.write else if what == "commit" then some Stmt.commit else none) with
+      | some w, some st =>
+        if !(d.w.writers w).todo.isEmpty then (d, "busy-writer") else
+        let s1 := wstep d.w (.start w [st] 0 "" [])
+        let s2 := wstep s1 (.exec w)
+        let o := describeStmt s1 s2 w
+        -- a statement that had to wait raised `database is locked`: the operation is over
+        ({ d with w := if (s2.writers w).todo.isEmpty then s2 else wstep s2 (.abort w) }, o)
+      | _, _ => (d, "bad-op")
     | _, _ => (d, "bad-op")
   | _ => (d, "bad-op")
 
